@@ -34,7 +34,7 @@ type Op struct {
 
 func (o Op) String() string {
 	switch o.Kind {
-	case "write", "read", "ack", "event", "readgap":
+	case "write", "read", "ack", "event", "readgap", "ackbad":
 		return fmt.Sprintf("%s(%d)", o.Kind, o.N)
 	}
 	return o.Kind
@@ -469,6 +469,21 @@ func (e *Engine) apply(op Op) string {
 		e.Disk.Marker("pq-op-ok")
 		e.Acked += n
 		return ""
+
+	case "ackbad":
+		// an ACK for more events than are pending (or on an empty queue): must be refused and change nothing
+		if e.InTx {
+			e.apply(Op{Kind: "rdone"})
+		}
+		pend := e.Flushed - e.Acked
+		n := pend + 1 + op.N%5
+		err := e.Queue.ACK(uint(n))
+		if err == nil {
+			e.fail("ACK(%d) succeeded although only %d events are pending", n, pend)
+			return "accepted"
+		}
+		e.CheckCounters(fmt.Sprintf("after the refused ACK(%d) with %d events pending", n, pend))
+		return pqKind(err)
 
 	case "counters":
 		e.CheckCounters("counters")
